@@ -256,15 +256,26 @@ def run(E: Engine, rep: Report, tier: str) -> dict:
     rep.check(len(vcalls) >= 2, "PASS", "Sequence._process_eom_parameters|validates-on-and-off-pulse", f"{len(vcalls)} validate_pulse calls", "the EOM on/off pulses are no longer both validated", E.where(pep))
     # enable_eom's buffer pulse: duration through adjust_duration, literal zero amplitude
     en = E.method(SCHED, "enable_eom")
-    fle = E.flow(en)
-    abe = abstractor(fle)
-    for node, _i, e in _calls_to(E, fle, {add_pulse.qualname}):
-        arg = e.node.args[0] if e.node.args else None
+    from .symutil import S as _S9, arg as _arg9, sh as _sh9, unobj as _un9
+
+    class _E9:  # the reporting line below needs a node
+        node = en.node
+
+    Se = _S9(E, en)
+    bufs = Se.calls("add_pulse")
+    if not bufs:
+        raise AnalysisError("anchor: _Schedule.enable_eom no longer schedules its buffer through add_pulse")
+    for l9 in bufs:
+        e = l9
+        pu9 = _arg9(l9, 0, "pulse")
+        pu9 = _un9(pu9) if pu9 is not None else None
         ok = False
-        if isinstance(arg, ast.Call) and len(arg.args) >= 3:
-            dur = abe.av(arg.args[0])
-            ok = any(r.endswith(".adjust_duration()") for r in dur.roots) and isinstance(arg.args[1], ast.Constant) and float(arg.args[1].value) == 0.0
-        rep.check(ok, "PASS", "_Schedule.enable_eom|buffer-pulse-adjusted-and-zero-amp", "EOM buffer pulse: adjust_duration(...) duration, literal 0.0 amplitude", f"EOM buffer pulse is built as {norm(arg) if arg is not None else '?'}", E.where(en, e.node))
+        arg = None
+        if pu9 is not None and pu9[0] == "call":
+            cp = type("L", (), {"kind": "call", "value": pu9})()
+            dur9, amp9 = _arg9(cp, 0, "duration"), _arg9(cp, 1, "amplitude")
+            ok = dur9 is not None and amp9 is not None and any(t[0] == "call" and t[1][0] == "attr" and t[1][2] == "adjust_duration" for t in _sym.subterms(dur9)) and amp9[0] == "const" and isinstance(amp9[1], (int, float)) and float(amp9[1]) == 0.0
+        rep.check(ok, "PASS", "_Schedule.enable_eom|buffer-pulse-adjusted-and-zero-amp", "EOM buffer pulse: adjust_duration(...) duration, literal 0.0 amplitude", f"EOM buffer pulse is built as {_sh9(pu9, 120) if pu9 is not None else '?'}", E.where(en, e.node))
     rep.floor("PASS", 14)
 
     # ----------------------------------------------------------- GUARD
